@@ -43,6 +43,9 @@ def run_generators(pid, tier, seed, nproc, hashseeds, extra_env=None):
     return events
 
 
+CONFORMANCE_ONLY = {"maxtokens-conformance"}
+
+
 def judge(report, module, events, chunk=60000, timeout=1500, relevant=None):
     """Validate events with Trace<module>; classify rejects; returns number of rejected events.
 
@@ -70,6 +73,11 @@ def judge(report, module, events, chunk=60000, timeout=1500, relevant=None):
                 report.extra[k] = report.extra.get(k, 0) + 1
                 e["_verdict"] = "skipped"
                 continue
+            if cl and e.get("expect") != "reject" and cl & CONFORMANCE_ONLY:
+                for c in cl & CONFORMANCE_ONLY:   # behaviour the model follows but no listed property states
+                    report.extra.setdefault("conformance_divergences_not_violations", {}).setdefault(c, 0)
+                    report.extra["conformance_divergences_not_violations"][c] += 1
+                cl = cl - CONFORMANCE_ONLY
             e["_verdict"] = "rejected" if cl else "accepted"
             if cl and relevant is not None and e.get("expect") != "reject":
                 if "OUTDOM" in cl:
